@@ -9,6 +9,7 @@ import (
 	"encoding/hex"
 	"encoding/json"
 	"fmt"
+	"io"
 	"os"
 	"os/exec"
 	"path/filepath"
@@ -318,13 +319,22 @@ func parent(id, tier string) int {
 			out := filepath.Join(dir, "result.json")
 			sh := fmt.Sprintf("ulimit -v %d; exec %q worker %s %s %d %d %d %q %d", mem, self, id, tier, w, nw, seed, dir, deadlineS)
 			cmd := exec.Command("/bin/sh", "-c", sh)
-			cmd.Stderr = os.Stderr
-			cmd.Stdout = os.Stderr
+			tail := &tailBuf{max: 16 << 10}
+			cmd.Stderr = io.MultiWriter(os.Stderr, tail)
+			cmd.Stdout = cmd.Stderr
 			err := cmd.Run()
 			b, rerr := os.ReadFile(out)
 			mu.Lock()
 			defer mu.Unlock()
 			if rerr != nil {
+				// a worker that died of a Go fatal error (out of memory, stack overflow, concurrent map access) raised
+				// INSIDE the code under test did not fail for infrastructure reasons: that is a finding
+				if what, where := fatalInCodeUnderTest(tail.String()); what != "" {
+					sig := id + "/fatal-error-in-code-under-test/" + what
+					merged.ViolCount[sig]++
+					merged.Violations[sig] = &Violation{Sig: sig, Desc: fmt.Sprintf("worker %d died: %s\n%s", w, what, where), Weight: 1 << 20}
+					return
+				}
 				died = append(died, fmt.Sprintf("worker %d produced no result (%v)", w, err))
 				return
 			}
@@ -482,6 +492,56 @@ func finish(p *Prop, tier string, seed int64, r *Result, wall float64) int {
 	}
 	fmt.Printf("%s %s: exit=%d exhaustive=%v wall=%.1fs outcomes=%d%s\n", p.ID, tier, exit, cov["exhaustive"], wall, len(r.Outcomes), sb.String())
 	return exit
+}
+
+type tailBuf struct {
+	mu  sync.Mutex
+	b   []byte
+	max int
+}
+
+func (t *tailBuf) Write(p []byte) (int, error) {
+	t.mu.Lock()
+	defer t.mu.Unlock()
+	t.b = append(t.b, p...)
+	if len(t.b) > 2*t.max {
+		t.b = append([]byte{}, t.b[len(t.b)-t.max:]...)
+	}
+	return len(p), nil
+}
+
+func (t *tailBuf) String() string {
+	t.mu.Lock()
+	defer t.mu.Unlock()
+	return string(t.b)
+}
+
+// fatalInCodeUnderTest recognises a Go runtime fatal error whose innermost non-runtime frame belongs to the
+// repository (or its page-buffer dependency), i.e. raised by the code under test rather than by the harness.
+func fatalInCodeUnderTest(stderr string) (what, where string) {
+	i := strings.Index(stderr, "fatal error: ")
+	if i < 0 {
+		return "", ""
+	}
+	rest := stderr[i:]
+	what = strings.TrimSpace(strings.SplitN(rest[len("fatal error: "):], "\n", 2)[0])
+	what = strings.ReplaceAll(what, " ", "-")
+	lines := strings.Split(rest, "\n")
+	for k, ln := range lines {
+		if k == 0 || strings.HasPrefix(ln, "\t") || strings.HasPrefix(ln, "runtime.") || strings.HasPrefix(ln, "goroutine ") || strings.TrimSpace(ln) == "" || strings.HasPrefix(ln, "runtime:") {
+			continue
+		}
+		// first non-runtime frame
+		if strings.HasPrefix(ln, "github.com/hnakamur/whispertool") || strings.HasPrefix(ln, "github.com/hnakamur/filebuffer") {
+			end := k + 8
+			if end > len(lines) {
+				end = len(lines)
+			}
+			return what, strings.Join(lines[k:end], "\n")
+		}
+		return "", ""
+	}
+	return "", ""
 }
 
 // ---------------------------------------------------------------- worker
